@@ -17,23 +17,23 @@ import (
 )
 
 type Prog struct {
-	repo      string
-	fset      *token.FileSet
-	prog      *ssa.Program
-	pkgs      []*ssa.Package
-	ppkgs     []*packages.Package
-	contracts *ContractSet
-	loopCache map[*ssa.Function]*LoopInfo
-	globals   map[*ssa.Global]int
-	funcIDs   map[*ssa.Function]int
-	implCache map[string][]types.Type
-	allNamed  []types.Type
-	byKey     map[string]*ssa.Function
-	boxedPtr  []types.Type
-	curProp   string
-	dynCache  map[*ssa.Function]bool
-	dynSet    map[*ssa.Function]bool
-	writers   map[string][]*ssa.Function
+	repo       string
+	fset       *token.FileSet
+	prog       *ssa.Program
+	pkgs       []*ssa.Package
+	ppkgs      []*packages.Package
+	contracts  *ContractSet
+	loopCache  map[*ssa.Function]*LoopInfo
+	globals    map[*ssa.Global]int
+	funcIDs    map[*ssa.Function]int
+	implCache  map[string][]types.Type
+	allNamed   []types.Type
+	byKey      map[string]*ssa.Function
+	boxedPtr   []types.Type
+	curProp    string
+	dynCache   map[*ssa.Function]bool
+	dynSet     map[*ssa.Function]bool
+	writers    map[string][]*ssa.Function
 	reachCache map[*ssa.Function]map[*ssa.Function]bool
 }
 
@@ -69,7 +69,7 @@ func loadProg(repo string, contractsDir string) (*Prog, error) {
 	}
 	prog.Build()
 	p := &Prog{repo: repo, fset: prog.Fset, prog: prog, ppkgs: pkgs, loopCache: map[*ssa.Function]*LoopInfo{},
-		 globals: map[*ssa.Global]int{}, funcIDs: map[*ssa.Function]int{}, implCache: map[string][]types.Type{}, byKey: map[string]*ssa.Function{}, dynCache: map[*ssa.Function]bool{}}
+		globals: map[*ssa.Global]int{}, funcIDs: map[*ssa.Function]int{}, implCache: map[string][]types.Type{}, byKey: map[string]*ssa.Function{}, dynCache: map[*ssa.Function]bool{}}
 	for _, sp := range spkgs {
 		if sp != nil {
 			p.pkgs = append(p.pkgs, sp)
